@@ -559,7 +559,7 @@ class Sess:
         """state injection: add delta to currentOffset and to every non-zero table entry (u32 table)"""
         raw = bytearray(self.fast[sid].bytes(FAST_STATE))
         cur, tt, ds = struct.unpack_from("<III", raw, 16400)
-        if tt == 3:
+        if tt != 2:            # only used 32-bit tables (Proofs.FastStreamProofs.shift_inv)
             return False
         tab = list(struct.unpack_from("<4096I", raw, 0))
         tab = [(x + delta) & 0xFFFFFFFF if x else 0 for x in tab]
